@@ -21,7 +21,7 @@ func properties() []Property {
 	return []Property{
 		{ID: "C01", Assumptions: []string{aSummaries, aModels, aE1, aE2, "receiver strings: both spellings of the orbiter address, a mixed-case spelling, other accounts, the blocked dust collector, empty, malformed, and an arbitrary 48-byte string; an arbitrary string other than a spelling of a known account is treated as undecodable", "'all prior histories' = arbitrary prior balances of the orbiter account, arbitrary escrow balance, arbitrary pause / parameter configuration (one inductive step)"},
 			Harnesses: []HarnessSpec{
-				{Name: "H_C01_receivers", Profile: "bit", Quick: b("rcvKinds", 8, "denomKinds", 4, "memoKinds", 2, "amountKinds", 3, "intKinds", 1, "fees", 0, "priors", 1, "pauses", 0, "ptMax", 0, "feeRcpKinds", 1, "faults", 0, "earlier", 0, "hypVariants", 0), Covers: []string{"error-ack", "success-ack", "success-ack-to-orbiter", "success-ack-to-someone-else"}},
+				{Name: "H_C01_receivers", Profile: "bit", Quick: b("rcvKinds", 9, "denomKinds", 5, "memoKinds", 2, "amountKinds", 3, "intKinds", 1, "fees", 0, "priors", 1, "pauses", 0, "ptMax", 0, "feeRcpKinds", 1, "faults", 0, "earlier", 0, "hypVariants", 0), Covers: []string{"error-ack", "success-ack", "success-ack-to-orbiter", "success-ack-to-someone-else"}},
 				{Name: "H_C01_payloads", Profile: "bit", Quick: b("rcvKinds", 2, "denomKinds", 1, "memoKinds", 6, "amountKinds", 1, "intKinds", 5, "fees", 1, "priors", 1, "pauses", 0, "ptMax", 0, "feeRcpKinds", 3, "faults", 0, "earlier", 0, "hypVariants", 1), Thorough: b("rcvKinds", 2, "denomKinds", 1, "memoKinds", 6, "amountKinds", 1, "intKinds", 5, "fees", 1, "priors", 1, "pauses", 1, "ptMax", 1, "feeRcpKinds", 3, "faults", 0, "earlier", 0, "hypVariants", 1), Covers: []string{"error-ack", "success-ack", "success-ack-to-orbiter"}},
 				{Name: "H_C01_faults", Profile: "bit", Quick: b("rcvKinds", 2, "denomKinds", 1, "memoKinds", 1, "amountKinds", 1, "intKinds", 2, "fees", 1, "priors", 1, "pauses", 0, "ptMax", 0, "feeRcpKinds", 2, "faults", 1, "earlier", 0, "hypVariants", 0), Covers: []string{"error-ack", "success-ack", "success-ack-to-orbiter"}},
 				{Name: "H_C01_encodings", Profile: "bit", Covers: []string{"refused", "success", "orbiter-transfer-executed"}},
@@ -29,7 +29,7 @@ func properties() []Property {
 			}},
 		{ID: "C02", Assumptions: []string{aSummaries, aModels, aE1, aE5, "ledger = ten tracked accounts (orbiter, dust collector, users, fee recipients, escrow, CCTP / warp / transfer module accounts) x four denoms; 'interleavings with other transfers' are sequential histories, covered by starting from an arbitrary ledger"},
 			Harnesses: []HarnessSpec{
-				{Name: "H_C02_conservation", Profile: "bit", Quick: b("rcvKinds", 2, "denomKinds", 1, "memoKinds", 1, "amountKinds", 1, "intKinds", 2, "fees", 2, "priors", 1, "pauses", 0, "ptMax", 0, "feeRcpKinds", 1, "faults", 0, "earlier", 0, "hypVariants", 1), Thorough: b("rcvKinds", 2, "denomKinds", 1, "memoKinds", 1, "amountKinds", 1, "intKinds", 4, "fees", 3, "priors", 1, "pauses", 0, "ptMax", 0, "feeRcpKinds", 2, "faults", 0, "earlier", 0, "hypVariants", 1), Covers: []string{"successful-orbiter-transfer", "not-a-successful-orbiter-transfer"}},
+				{Name: "H_C02_conservation", Profile: "bit", Quick: b("rcvKinds", 2, "denomKinds", 1, "memoKinds", 1, "amountKinds", 1, "intKinds", 2, "fees", 2, "priors", 1, "pauses", 0, "ptMax", 0, "feeRcpKinds", 1, "faults", 0, "earlier", 0, "hypVariants", 1), Thorough: b("rcvKinds", 2, "denomKinds", 1, "memoKinds", 1, "amountKinds", 1, "intKinds", 2, "fees", 3, "priors", 1, "pauses", 0, "ptMax", 0, "feeRcpKinds", 1, "faults", 0, "earlier", 0, "hypVariants", 0), Covers: []string{"successful-orbiter-transfer", "not-a-successful-orbiter-transfer"}},
 				{Name: "H_C02_faults", Profile: "bit", Quick: b("rcvKinds", 1, "denomKinds", 1, "memoKinds", 1, "amountKinds", 1, "intKinds", 1, "fees", 1, "priors", 1, "pauses", 0, "ptMax", 0, "feeRcpKinds", 1, "faults", 1, "earlier", 0, "hypVariants", 0), Covers: []string{"successful-orbiter-transfer", "not-a-successful-orbiter-transfer"}},
 				{Name: "H_C02_sequence", Profile: "bit", Quick: b("rcvKinds", 1, "denomKinds", 1, "memoKinds", 1, "amountKinds", 1, "intKinds", 2, "fees", 1, "priors", 1, "pauses", 0, "ptMax", 0, "feeRcpKinds", 1, "faults", 0, "earlier", 1, "hypVariants", 0), Covers: []string{"successful-orbiter-transfer", "after-an-earlier-transfer"}},
 			}},
@@ -54,7 +54,7 @@ func properties() []Property {
 			}},
 		{ID: "C07", Assumptions: []string{aSummaries, aModels, aE2, "events/state of the wrapped application itself are identical because it is the same single call with the same arguments on the same context (the application's internals are a model)", "acknowledgement, timeout, channel-close/open-confirm, SendPacket and GetAppVersion are driven on the middleware value with recording wrapped objects (H_C07_callbacks); the remaining channel handshake and upgrade callbacks are promoted from the same embedded interfaces and are not driven"},
 			Harnesses: []HarnessSpec{
-				{Name: "H_C07_packets", Profile: "bit", Quick: b("rcvKinds", 8, "denomKinds", 4, "memoKinds", 2, "amountKinds", 3, "intKinds", 1, "fees", 0, "priors", 1, "pauses", 0, "ptMax", 0, "garbage", 1, "feeRcpKinds", 1, "faults", 0, "earlier", 0, "hypVariants", 0), Covers: []string{"not-for-orbiter"}},
+				{Name: "H_C07_packets", Profile: "bit", Quick: b("rcvKinds", 9, "denomKinds", 4, "memoKinds", 2, "amountKinds", 3, "intKinds", 1, "fees", 0, "priors", 1, "pauses", 0, "ptMax", 0, "garbage", 1, "feeRcpKinds", 1, "faults", 0, "earlier", 0, "hypVariants", 0), Covers: []string{"not-for-orbiter"}},
 				{Name: "H_C07_channels", Profile: "bit", Covers: []string{"not-for-orbiter"}},
 				{Name: "H_C07_callbacks", Profile: "bit", Covers: []string{"callback-called"}},
 				{Name: "H_C07_sequence", Profile: "bit", Covers: []string{"not-for-orbiter", "after-an-orbiter-transfer"}},
@@ -81,7 +81,7 @@ func properties() []Property {
 			}},
 		{ID: "C09", Assumptions: []string{aSummaries, aModels, aE1, "pre-state: any subset of {FEE, SWAP} paused; a recording stub controller is registered under ACTION_SWAP so that both identifiers are routable"},
 			Harnesses: []HarnessSpec{
-				{Name: "H_C09_actions", Profile: "bit", Quick: b("steps", 2), Thorough: b("steps", 4), Covers: []string{"message-accepted", "message-refused", "probe-with-paused-action", "probe-unaffected"}},
+				{Name: "H_C09_actions", Profile: "bit", Quick: b("steps", 2), Thorough: b("steps", 3), Covers: []string{"message-accepted", "message-refused", "probe-with-paused-action", "probe-unaffected"}},
 			}},
 		{ID: "C10", Assumptions: []string{aSummaries, aModels, "the servers are the ones keeper.RegisterMsgServers registers on a recording configurator", "signer: any string of at most signerlen bytes other than the authority's bech32 string in lower or upper case (both spellings denote the authority account)", "state unchanged = identical content of every orbiter collection (natively: identical key/value content of the orbiter store), no event, no bridge request, no bank movement"},
 			Harnesses: []HarnessSpec{
